@@ -7,11 +7,14 @@ lists expand per argstr ('...' repeats the flag per element, otherwise the eleme
 with the separator; a blank separator gives separate arguments)."""
 
 
-def field_args(spec, value):
-    """spec: dict(kind, argstr, sep) ; returns list[str]"""
+def field_args(spec, value, values=None):
+    """spec: dict(kind, argstr, sep) ; returns list[str].  A template may also name the first element of another
+    (list-valued, set) field as {other[0]} (spec["xref"] = other)."""
     kind, argstr, sep = spec["kind"], spec["argstr"], spec.get("sep", " ")
     if value is None:
         return []
+    if spec.get("xref"):
+        argstr = argstr.replace("{%s[0]}" % spec["xref"], str(values[spec["xref"]][0]))
     if kind == "flag":
         return [argstr] if value is True else []
     templated = "{" in argstr
@@ -50,7 +53,7 @@ def field_args(spec, value):
 def argv(executable, specs, values, append_args=()):
     pos, none, neg = [], [], []
     for k, spec in enumerate(specs):
-        args = field_args(spec, values.get(spec["name"]))
+        args = field_args(spec, values.get(spec["name"]), values)
         if not args:
             continue
         p = spec.get("position")
